@@ -96,6 +96,7 @@ func (i *Interpreter) restart() error {
 	i.ctx.BackendResponse = nil
 	i.ctx.Object = nil
 	i.ctx.Response = nil
+	i.ctx.CacheHitItem = nil
 
 	if err := i.ProcessRecv(); err != nil {
 		return errors.WithStack(err)
